@@ -39,7 +39,9 @@ def check_callback_failure_closes(ctx: Ctx, oid: str) -> None:
     from ..terms import evaluator as _ev
     flr = repo.func(f"{GB}.ChannelFactory._local_receive")
     idp = [p_ for p_ in flr.params() if p_ != "self"][0]
-    is_cb = lambda c: isinstance(c.func, ast.Name) and c.func.id == "callback"  # noqa: E731
+    from ._chan import entry_calls as _entry_calls
+    cb_nodes = {id(c) for (c, _o, _w) in _entry_calls(repo, flr)}
+    is_cb = lambda c: id(c) in cb_nodes or (isinstance(c.func, ast.Name) and c.func.id == "callback")  # noqa: E731
     with ctx.obligation(oid, "callback-failure-closes") as ob:
         orc = Oracle(repo, flr, precise=True, call_raises=lambda c, f: [("Exception", True)] if is_cb(c) else None)
         ev = _ev(repo, flr, orc)
